@@ -452,46 +452,58 @@ def check_mpf2multiword(r, repo, rule="R13.5"):
                  "significand: the lower bits are then dropped although they are representable (float64(1 + 2**-52) in float32 words is [1.0])", loc(REL, n_))
     if n_brk == 0:
         raise AnalysisError("mpf2multiword: the truncation exit `if x1 == dtype(0): break` was not found")
-    # multiword2mpf: the sum runs over every word exactly once
+    # multiword2mpf: interpreted (sa/absint.py) on symbolic word lists of length 0..4: float2mpf(ctx, word) is the only way a word
+    # becomes a number (an exact polynomial atom), a word used natively has no arithmetic; the result must be w0 + ... + w(n-1),
+    # every word once - whatever loop, comprehension or sum() spelling the function uses
+    from sa.absint import Interp, Closure, Unsupported as IUnsupported, PyRaise
+    from rules.C12 import Poly
     g = repo.func(REL, "multiword2mpf")
-    mw = g.args.args[1].arg
-    idx = [norm_src(n.slice) for n in ast.walk(g) if isinstance(n, ast.Subscript) and dotted(n.value) == mw]
-    loops = [n for n in ast.walk(g) if isinstance(n, ast.For)]
-    ok = len(loops) == 1 and sorted(idx) == sorted(["-1", norm_src(loops[0].target)]) and norm_src(loops[0].iter) in (f"reversed(range(len({mw}) - 1))", f"range(len({mw}) - 1)")
-    if not ok:
-        # any other shape that visibly sums every element once
-        ok = len(loops) == 1 and norm_src(loops[0].iter) in (mw, f"reversed({mw})") and not idx
-    if not ok and not loops:
-        # sum(<f(w) for w in mw[:-1] (possibly reversed)>, <f(mw[-1])>)  or  sum(f(w) for w in mw)
-        for c_ in ast.walk(g):
-            if isinstance(c_, ast.Call) and dotted(c_.func) == "sum" and c_.args and isinstance(c_.args[0], (ast.GeneratorExp, ast.ListComp)) and len(c_.args[0].generators) == 1:
-                it = norm_src(c_.args[0].generators[0].iter)
-                if len(c_.args) == 2 and it in (f"{mw}[:-1]", f"reversed({mw}[:-1])") and f"{mw}[-1]" in norm_src(c_.args[1]) and not c_.args[0].generators[0].ifs:
-                    ok = True
-                elif len(c_.args) == 1 and it in (mw, f"reversed({mw})") and not c_.args[0].generators[0].ifs:
-                    ok = True
-    # the words are added as multiprecision numbers: every use of a word is the argument of float2mpf (a native sum of the words
-    # rounds to the word format at every step - a multiword of a wider value collapses to one word)
-    word_vars = set()
-    for n_ in ast.walk(g):
-        if isinstance(n_, ast.comprehension) or isinstance(n_, ast.For):
-            it_src = norm_src(n_.iter)
-            if isinstance(n_.target, ast.Name) and (it_src in (mw, f"reversed({mw})", f"{mw}[:-1]", f"reversed({mw}[:-1])")):
-                word_vars.add(n_.target.id)
-    raw = []
-    for n_ in ast.walk(g):
-        is_word = (isinstance(n_, ast.Subscript) and dotted(n_.value) == mw and not isinstance(n_.slice, ast.Slice) and isinstance(n_.ctx, ast.Load)) \
-            or (isinstance(n_, ast.Name) and n_.id in word_vars and isinstance(n_.ctx, ast.Load))
-        if is_word:
-            par = getattr(n_, "_parent", None)
-            conv = isinstance(par, ast.Call) and (dotted(par.func) or "").split(".")[-1] == "float2mpf" and n_ in par.args
-            if not conv:
-                raw.append(n_)
-    r.ob(rule, f"{REL}::multiword2mpf converts every word to mpf before adding", not raw,
-         f"`{norm_src(raw[0]) if raw else ''}` is used as a native float (not as float2mpf(ctx, word)): the words are then added in the word format, which rounds "
-         "at every step, and a float carried in narrower words (float64 in float32 words) comes back rounded to one word", loc(REL, raw[0] if raw else g))
-    r.ob(rule, f"{REL}::multiword2mpf sums every word once", ok,
-         f"indices {idx} over `{norm_src(loops[0].iter) if loops else None}`: not (last word) + (every other word once)", loc(REL, g))
+
+    class _Word:
+        __absint_host__ = True
+
+        def __init__(self, i_):
+            self.i = i_
+
+        def __repr__(self):
+            return f"word{self.i}"
+
+    class _Ctx:
+        __absint_host__ = True
+
+        def mpf(self, v=0):
+            return Poly.const(v) if isinstance(v, (int, float)) else v
+
+    def _float2mpf(ctx_, w_):
+        if not isinstance(w_, _Word):
+            raise TypeError(f"float2mpf of {w_!r}")
+        return Poly.atom(f"w{w_.i}")
+
+    raw_use, wrong_sum = None, None
+    for n_words in range(0, 5):
+        I_ = Interp(repo)
+        I_.globals_cache[(REL, "float2mpf")] = _float2mpf
+        words = [_Word(q) for q in range(n_words)]
+        try:
+            out = I_.call(Closure(g, {}, I_, REL, bound_self=None), [_Ctx(), list(words)])
+        except (TypeError, PyRaise) as e_:
+            msg = getattr(e_, "what", str(e_))
+            if "IndexError" in msg and n_words == 0:
+                continue  # the empty multiword is R13.9's subject
+            raw_use = raw_use or f"with {n_words} words: {msg[:160]}"
+            continue
+        except IUnsupported as e_:
+            raise AnalysisError(f"multiword2mpf is not interpretable: {getattr(e_, 'what', e_)}")
+        want = Poly({})
+        for q in range(n_words):
+            want = want + Poly.atom(f"w{q}")
+        if not (isinstance(out, Poly) and out == want) and not (n_words == 0 and out in (0, 0.0)):
+            wrong_sum = wrong_sum or f"with {n_words} words the result is {out!r}, expected {want!r}"
+    r.ob(rule, f"{REL}::multiword2mpf converts every word to mpf before adding", raw_use is None,
+         f"a word is used as a native float (not as float2mpf(ctx, word)) - {raw_use}: the words are then added in the word format, which rounds "
+         "at every step, and a float carried in narrower words (float64 in float32 words) comes back rounded to one word", loc(REL, g))
+    r.ob(rule, f"{REL}::multiword2mpf sums every word once", wrong_sum is None and raw_use is None,
+         f"multiword2mpf does not return the sum of all words: {wrong_sum or raw_use}", loc(REL, g))
 
 
 def _stores(st):
